@@ -17,7 +17,8 @@ C13  one clf.exchange() per (driver x target kind x host command index k x statu
      status 01h of the RF exchange command as initiator -> TimeoutError and every other error code of it ->
      TransmissionError (never TimeoutError / BrokenLinkError / IOError; InDataExchange: the six bit error code); as
      target every error code of TgGetInitiatorCommand / TgResponseToInitiator -> TransmissionError, except 0Ah /
-     29h / 31h which the driver documents as the remote side having left (BrokenLinkError or TransmissionError) and 01h
+     29h / 31h which the driver documents as the remote side having left (BrokenLinkError exactly, at both host
+     commands, for all seven listen-capable drivers: table RELEASED_EXACT) and 01h
      (TimeoutError or TransmissionError) - asked for all 256 values because status octets and OS errno values are
      different number spaces (6Eh = ETIMEDOUT, 05h = EIO, 13h = ENODEV); the mirror image on the host link: a
      transport exception after the ACK whose errno equals a special-cased status code (1, 10, 41, 49) -> IOError;
@@ -25,6 +26,11 @@ C13  one clf.exchange() per (driver x target kind x host command index k x statu
      the ACK of the RF exchange command -> TimeoutError (exchange() docstring); status 29h (released by the
      initiator; RC-S956 also 31h RF-off) of TgGetInitiatorCommand -> BrokenLinkError; CIU RFOffIRq while a
      FeliCa listen target -> BrokenLinkError.
+     Concrete type clause ("driver-internal exception types never escape"): the type of whatever exchange() raises
+     is itself nfc.clf.CommunicationError / TimeoutError / TransmissionError / ProtocolError / BrokenLinkError /
+     UnsupportedTargetError or a builtin OSError class; pn53x.Chipset.Error derives from TransmissionError since
+     8c4b67a, but a caller that sees it still sees a driver-internal type (judged for every action at every host
+     command and for the follow-up exchange).
      Well formed envelopes with short / misordered content ("payload": frame links: right LCS/DCS around
      {-, D5, D4, 7F, D5 RC, D5 wrong-RC, RC, RC D5} x {-, 00, 01 xx, 01 xx 00, 00 01}; ACR122U: well formed CCID message whose pseudo
      APDU response is any string of 0..6 octets built from D5, RC, 90 00, 63 00, 90, 00, arbitrary octets - also the
@@ -66,7 +72,8 @@ ASSUMPTIONS = [
     "CCID header bytes bSlot/bSeq/bStatus/bError/bChainParameter of an ACR122U answer are not judged (no checksum protects them and the property names framing, identifier, response code and status word only)",
     "a host-link fault changes what the host reads or makes the write fail; the chip still executes the command (not when the write fails)",
     "a transport exception while the command frame is written or the ACK frame awaited (any errno, ETIMEDOUT included), and a transport exception other than ETIMEDOUT while the response is awaited, is a host-link failure and must be reported as IOError; only errors nfc/clf/transport.py can raise at that point are injected (USB read ETIMEDOUT/EIO/ENODEV, USB write EIO/ENODEV, serial additionally IOError without errno from pyserial), plus - response phase only - IOError with errno 1/10/41/49, which today's transport.py does not raise: they stand for 'a transport exception with some other errno' and are chosen because the numbers coincide with chipset status codes the drivers special-case",
-    "C13 status class clause: the status octet of an RF command and the errno of a transport exception are different number spaces; error code 01h of InCommunicateThru/InDataExchange is the chip's RF time-out, no other code is; no error code of an initiator command means that the field was lost; as target 0Ah/29h/31h are what pn53x.Device.send_rsp_recv_cmd documents as the remote side having left",
+    "C13 status class clause: the status octet of an RF command and the errno of a transport exception are different number spaces; error code 01h of InCommunicateThru/InDataExchange is the chip's RF time-out, no other code is; no error code of an initiator command means that the field was lost; as target 0Ah/29h/31h are what pn53x.Device.send_rsp_recv_cmd documents as the remote side having left (RF field not activated in time / released by the initiator / initiator RF off): field loss, reported as BrokenLinkError whichever of the two host commands of the exchange the chip reports it at",
+    "C13 concrete type clause: the documented public exception classes are nfc.clf.CommunicationError, TimeoutError, TransmissionError, ProtocolError, BrokenLinkError, UnsupportedTargetError and the builtin IOError/OSError classes (including the errno subclasses Python itself selects); a class defined in a driver module is driver-internal even if it derives from one of these",
     "the CIU appends/verifies CRC_A for InCommunicateThru at 106 kbps Type A exactly when CIU_TxMode.TxCRCEn / CIU_RxMode.RxCRCEn (bit 7) are set, reports a failed check as status 02h, and hands the received octets over unchanged when RxCRCEn is clear",
     "C13 finer clauses: PN53x status 01h and a silent chip after ACK mean time-out; status 29h (RC-S956 also 31h) of TgGetInitiatorCommand and CIU_DivIRq.RFOffIRq mean the remote side left",
     "C13 RF status clause: the status byte of InCommunicateThru, TgGetInitiatorCommand, TgResponseToInitiator and TgSetData is an error code as a whole (00h = success); only InDataExchange and TgGetData carry the NAD (bit 7) and MI (bit 6) flags in front of a six bit error code (PN532 UM 7.1); with an error status the octets behind the status byte are chip buffer content, not data received from the other side",
@@ -103,7 +110,11 @@ RULE_C13 = ("cell = (driver in pn531/pn532/pn533/rcs956/acr122/arygonA/arygonB/p
             "bits, documented error codes, field borders; thorough: all 255): 00h -> exactly the reference data, error "
             "status -> never data; status class clause: for each of these 256 values which documented error it becomes "
             "(initiator: error code 01h -> TimeoutError, any other -> TransmissionError; target: 0Ah/29h/31h -> "
-            "BrokenLinkError or TransmissionError, 01h -> TimeoutError or TransmissionError, any other -> TransmissionError), "
+            "BrokenLinkError exactly at TgResponseToInitiator (first host command of an exchange that carries response data) "
+            "and at TgGetInitiatorCommand for pn531/pn532/pn533/rcs956/arygonA/arygonB/pn532rt in listen kinds tt2/tt4/DEP "
+            "106/424, 01h -> TimeoutError or TransmissionError, any other -> TransmissionError), "
+            "concrete type clause: the exception type is one of the documented public classes itself (not a driver-internal "
+            "subclass of one), for every action at every host command, "
             "and transport exceptions after the ACK with errno 1/10/41/49 (numerically special-cased status codes) -> IOError; "
             "well formed envelopes (frame with right checksums / CCID message with right dwLength) with short or misordered "
             "content - frame links 40 data fields of 0..5 octets, ACR122U every pseudo-APDU response of 0..4 octets over "
@@ -149,6 +160,15 @@ REQUIRED_C13 = (["%s_c13_exchanges" % d for d in DRIVERS] + ["%s_c13_cells" % d 
                 ["%s_c13_hostlink_errno_collision_at_rf_command" % d for d in DRIVERS] +
                 ["pn53x_c13_status_class_sweep_%s" % c for c in ("InCommunicateThru", "InDataExchange", "TgGetInitiatorCommand",
                                                                   "TgResponseToInitiator")] +
+                # field loss as BrokenLinkError exactly, at both host commands of a target role exchange and in every
+                # listen kind that uses them; concrete type of whatever exchange() raised
+                ["%s_c13_released_status_exact_checked" % d for d in FRAME_DRIVERS] +
+                ["pn53x_c13_released_status_exact_%s" % c for c in ("TgGetInitiatorCommand", "TgResponseToInitiator")] +
+                ["pn53x_c13_released_status_exact_%s_%s" % (c, k) for c in ("TgGetInitiatorCommand", "TgResponseToInitiator")
+                 for k in ("l_tt2", "l_tt4", "l_dep106", "l_dep424")] +
+                ["%s_c13_concrete_type_checked" % d for d in DRIVERS] +
+                ["%s_c13_concrete_type_tgt_checked" % d for d in FRAME_DRIVERS] +
+                ["%s_c13_concrete_type_at_response_checked" % d for d in FRAME_DRIVERS] +
                 # well formed envelopes with short / misordered content
                 ["%s_c13_wellformed_payload_exchange_checked" % d for d in DRIVERS] +
                 ["%s_c13_wellformed_payload_sense_checked" % d for d in DRIVERS] +
@@ -436,14 +456,22 @@ def comm_class(exc):
 
 RELEASED_CODES = (0x0A, 0x29, 0x31)     # pn53x.Device.send_rsp_recv_cmd: "RF field not switched on in time", "released
 #                                         by the initiator", RC-S956 "RF off": reported as BrokenLinkError
+# (driver, host command) positions where a field-loss status must surface as BrokenLinkError exactly ("field loss as
+# BrokenLinkError").  Observed on the unchanged tree (2026-09-24, every target kind and command variant, bare and with
+# octets behind the status): all seven listen-capable drivers map 0Ah / 29h / 31h to nfc.clf.BrokenLinkError at
+# TgResponseToInitiator (42 of 42 trials per driver, RC-S956 30 of 30) and at TgGetInitiatorCommand (54 of 54, RC-S956
+# 42 of 42) - both host commands of a target role exchange go through the one handler of send_rsp_recv_cmd().
+RELEASED_EXACT = {(d, c) for d in ("pn531", "pn532", "pn533", "rcs956", "arygonA", "arygonB", "pn532rt") for c in (0x88, 0x90)}
+# positions where drivers legitimately differ and TransmissionError is tolerated next to BrokenLinkError: none observed
+RELEASED_TOLERATED = set()
 
 
-def expected_status_classes(role, cmd, s):
+def expected_status_classes(role, cmd, s, drv=None):
     """-> (clause label, set of documented classes) for error status s of RF command cmd, None if not judged.
     Initiator (InCommunicateThru / InDataExchange): error code 01h is the chip's time-out -> TimeoutError, every other
     error code -> TransmissionError.  Target (TgGetInitiatorCommand / TgResponseToInitiator): 0Ah / 29h / 31h are
-    documented by the driver as the remote side having left (BrokenLinkError; TransmissionError is not objected to
-    here, the codes and chips where BrokenLinkError is demanded are judged by the older clause below); 01h is
+    documented by the driver as the remote side having left -> BrokenLinkError exactly at the (driver, command)
+    positions of RELEASED_EXACT (TransmissionError tolerated only at the positions listed in RELEASED_TOLERATED); 01h is
     not a target side code in the manuals (TimeoutError and TransmissionError both accepted); every other code ->
     TransmissionError."""
     code = s & 0x3F if cmd in FLAGGED_STATUS_CMDS else s & 0xFF
@@ -453,11 +481,52 @@ def expected_status_classes(role, cmd, s):
         return ("status01", {"TimeoutError"}) if code == 1 else ("error-status/ini", {"TransmissionError"})
     if role == "tgt" and cmd in (0x88, 0x90):
         if code in RELEASED_CODES:
-            return "released-status/tgt", {"BrokenLinkError", "TransmissionError"}
+            if (drv, cmd) in RELEASED_EXACT and (drv, cmd) not in RELEASED_TOLERATED:
+                return "released-status/tgt", {"BrokenLinkError"}
+            return "released-status-tolerated/tgt", {"BrokenLinkError", "TransmissionError"}
         if code == 1:
             return "status01/tgt", {"TimeoutError", "TransmissionError"}
         return "error-status/tgt", {"TransmissionError"}
     return None
+
+
+def public_exception_type(exc):
+    """True if the concrete type of an exception that left clf.exchange() is one of the documented public classes:
+    nfc.clf.CommunicationError and its four documented kinds, nfc.clf.UnsupportedTargetError, or IOError / OSError (the
+    builtin class or one of the builtin errno subclasses Python picks by itself for OSError(errno, ...)).  A class
+    defined anywhere else (pn53x.Chipset.Error, ...) is driver-internal even when it derives from a documented one."""
+    import nfc.clf
+    t = type(exc)
+    if t in (nfc.clf.CommunicationError, nfc.clf.TimeoutError, nfc.clf.TransmissionError, nfc.clf.ProtocolError,
+             nfc.clf.BrokenLinkError, nfc.clf.UnsupportedTargetError):
+        return True
+    return issubclass(t, OSError) and t.__module__ == "builtins"
+
+
+def type_name(exc):
+    t = type(exc)
+    return t.__qualname__ if t.__module__ == "builtins" else "%s.%s" % (t.__module__, t.__qualname__)
+
+
+def concrete_type_clause(R, cell, k, action, cmd, name, where, tag, exc, case, follow):
+    """'Driver-internal exception types never escape': what clf.exchange() raised is judged by its concrete type,
+    not by isinstance - at every host command, for every action, for the follow-up exchange too"""
+    drv = cell.driver
+    if tag not in ("comm", "ioerror") or exc is None:
+        return False
+    R.count("%s_c13_concrete_type_checked" % drv)
+    if cell.role == "tgt":
+        R.count("%s_c13_concrete_type_tgt_checked" % drv)
+        if cmd == 0x90 and not follow:
+            R.count("%s_c13_concrete_type_at_response_checked" % drv)
+    R.seen("pn53x_c13_concrete_types", "%s/%s" % (drv, type_name(exc)))
+    if public_exception_type(exc):
+        return False
+    R.violation("%s/internal-type/%s(%s)/%s@%s" % (drv, exc_sig(exc), comm_class(exc), where, name),
+                "%s %s: clf.exchange() raised the driver-internal %s (a %s subclass) for %r at host command %d (%s); "
+                "documented are nfc.clf.TimeoutError / TransmissionError / ProtocolError / BrokenLinkError and IOError" % (
+                    drv, cell.kind, type_name(exc), comm_class(exc), action, k, name), case)
+    return True
 
 
 def hostlink_clause(R, drv, link, role, action, cmd, name, tag, got, case, exc, at_rf=False, stage="exchange", kind=None):
@@ -517,9 +586,15 @@ def judge_c13(R, cell, k, action, cmd, out, exc, follow=False, data=None):
                     "%s %s: clf.exchange() returned None while talking to a remote target (%r at %s)" % (
                         drv, cell.kind, action, name), case)
         return True
+    internal = concrete_type_clause(R, cell, k, action, cmd, name, where, tag, exc, case, follow)
     if follow:
-        return False
-    # finer clauses ---------------------------------------------------------------------------------
+        return internal
+    return finer_clauses(R, cell, k, action, cmd, out, exc, data, name, case, tag) or internal
+
+
+def finer_clauses(R, cell, k, action, cmd, out, exc, data, name, case, tag):
+    from vf.sim.chipsets import pn53x as S
+    drv = cell.driver
     variant = VARIANT[drv]
     got = out[1] if tag == "comm" else tag
     last_rf = cell.rf_cmd_k
@@ -557,15 +632,22 @@ def judge_c13(R, cell, k, action, cmd, out, exc, follow=False, data=None):
     if action[0] in ("status", "status+data") and cmd in RF_DELIVERY_CMDS and tag in ("comm", "ioerror"):
         # which documented error an error status becomes: chipset status octets and OS errno values are different
         # number spaces, so this is asked for every value (6Eh = ETIMEDOUT, 05h = EIO, 13h = ENODEV included)
-        exp = expected_status_classes(cell.role, cmd, action[1] & 0xFF)
+        exp = expected_status_classes(cell.role, cmd, action[1] & 0xFF, drv)
         if exp is not None:
             label, allowed = exp
             cls = comm_class(exc) if tag == "comm" else "IOError"
+            if label == "released-status/tgt":
+                # field loss as BrokenLinkError, at either host command of the target role exchange
+                R.count("%s_c13_released_status_exact_checked" % drv)
+                R.count("pn53x_c13_released_status_exact_%s" % name)
+                R.count("pn53x_c13_released_status_exact_%s_%s" % (name, cell.kind.replace("-", "_")))
+                R.seen("pn53x_c13_released_status_cells", "%s/%s/%s/%s/%02X->%s" % (
+                    drv, cell.kind, kind_info(cell.kind, "all")[2][cell.variant][0], name, action[1] & 0xFF, cls))
             R.count("%s_c13_finer_checked" % drv)
             R.count("%s_c13_status_class_checked" % drv)
             R.count("pn53x_c13_status_class_sweep_%s" % name)
             R.seen("pn53x_c13_status_classes", "%s/%s/%s->%s" % (drv, name, label, cls))
-            if len(allowed) == 1 and label != "status01":
+            if len(allowed) == 1 and label.startswith("error-status"):
                 R.count("%s_c13_status_class_%s_only_transmission_checked" % (drv, cell.role))
             if (action[1] & 0xFF) in S.STATUS_ERRNO_COLLISIONS and label.startswith("error-status"):
                 R.count("%s_c13_status_errno_collision_checked" % drv)
@@ -574,6 +656,11 @@ def judge_c13(R, cell, k, action, cmd, out, exc, follow=False, data=None):
                     R.violation("%s/class/status01@%s->%s" % (drv, name, got),
                                 "%s %s: chip status 01h (time-out) of %s surfaced as %s, not nfc.clf.TimeoutError" % (
                                     drv, cell.kind, name, got), case)
+                elif label.startswith("released-status"):
+                    R.violation("%s/class/%s@%s->%s" % (drv, label, name, cls),
+                                "%s %s: status %02Xh of %s (the initiator released the target / switched its field off) "
+                                "surfaced as %s (%s), documented for field loss: %s" % (
+                                    drv, cell.kind, action[1] & 0xFF, name, cls, type_name(exc), "/".join(sorted(allowed))), case)
                 else:
                     R.violation("%s/class/%s@%s->%s" % (drv, label, name, cls),
                                 "%s %s: error status %02Xh of %s (not the time-out code%s) surfaced as %s, documented: %s" % (
